@@ -30,13 +30,13 @@ FINDINGS = [
          what="-setcoefficients on a Fourier grid passes the interwoven (re,im) matrix of the file format (InterfaceCLI.md, tsgLoadHCoefficients.m, the output of "
               "-getcoefficients) unchanged to setHierarchicalCoefficients(), which expects all real parts followed by all imaginary parts: get -> set is not the identity"),
     dict(property="C16", key="tool-abort:ubsan-reference-binding-to-null:TasGrid::IO::writeVector@tsgIOHelpers.hpp<-TasGrid::GridGlobal::write@tsgGridGlobal.cpp",
-         status="open", fix="fixes/C16-update-without-new-tensors.patch",
+         status="fixed", commit="cde6280", fix="fixes/C16-update-without-new-tensors.patch (identical to /repo commit cde6280, which appeared while this monitor was being built)",
          what="LIBRARY (also C06): GridGlobal::updateGrid leaves updated_tensors set (with empty updated_active_tensors/_w) when the requested update adds no tensor; "
               "write() then emits an inconsistent 'pending update': ASCII write indexes an empty vector (SEGV in a plain build: tasgrid -makeupdate ... -ascii, "
               "also reached from -refineaniso when the level limits are saturated)"),
     dict(property="C16", key="tool-abort:ubsan-reference-binding-to-null:TasGrid::IO::writeVector@tsgIOHelpers.hpp<-TasGrid::GridFourier::write@tsgGridFourier.cpp",
-         status="open", fix="fixes/C16-update-without-new-tensors.patch", what="LIBRARY: same defect in GridFourier::updateGrid"),
-    dict(property="C16", key="tool-abort:asan-heap-buffer-overflow:TasGrid::OneDimensionalWrapper::*", status="open", fix="fixes/C16-update-without-new-tensors.patch",
+         status="fixed", commit="cde6280", fix="fixes/C16-update-without-new-tensors.patch (identical to /repo commit cde6280, which appeared while this monitor was being built)", what="LIBRARY: same defect in GridFourier::updateGrid"),
+    dict(property="C16", key="tool-abort:asan-heap-buffer-overflow:TasGrid::OneDimensionalWrapper::*", status="fixed", commit="cde6280", fix="fixes/C16-update-without-new-tensors.patch (identical to /repo commit cde6280, which appeared while this monitor was being built)",
          what="LIBRARY: same defect, binary format: the file written after such an update is read back with a 1-D wrapper sized for the (smaller) stale "
               "updated_tensors: heap-buffer-overflow in recomputeTensorRefs / indexesToNodes on the next tasgrid command (silent over-read in a plain build)"),
     dict(property="C16", key="tool-hang:makequadrature:localp", status="open", fix="fixes/C16-makequadrature-localp.patch",
